@@ -120,3 +120,54 @@ lut_ext2!(c14_lut_clear__n2_ext2_f2_t4, 4);
 lut_ext2!(c14_lut_clear__n2_ext2_f2_t5, 5);
 lut_ext2!(c14_lut_clear__n2_ext2_f2_t6, 6);
 lut_ext2!(c14_lut_clear__n2_ext2_f2_t7, 7);
+
+// ------------------------------------------------------------------------------------------------
+// C18 — BlindRotationKey / BlindRotationKeyCompressed::read_from: the wrapper's own scalar metadata (`dist`) must be left
+// unchanged when the read fails ("metadata updated atomically after a successful read", ReaderFrom).  A receiver with
+// zero key elements isolates the wrapper's own code: the 16-byte header (distribution word, element count) is fully symbolic.
+// ------------------------------------------------------------------------------------------------
+mod c18_brk {
+    use super::fmt_stub;
+    use crate::blind_rotation::{BlindRotationKey, BlindRotationKeyCompressed, CGGI};
+    use poulpy_core::Distribution;
+    use poulpy_hal::layouts::ReaderFrom;
+    use std::io::Cursor;
+    use std::marker::PhantomData;
+
+    fn check(r: std::io::Result<()>, dist: &Distribution, hdr: &[u8; 16], total: usize) {
+        let word = u64::from_le_bytes([hdr[0], hdr[1], hdr[2], hdr[3], hdr[4], hdr[5], hdr[6], hdr[7]]);
+        let len = u64::from_le_bytes([hdr[8], hdr[9], hdr[10], hdr[11], hdr[12], hdr[13], hdr[14], hdr[15]]);
+        if r.is_err() {
+            assert!(matches!(dist, Distribution::BinaryBlock(7)), "C18:Err leaves wrapper metadata unchanged");
+        } else {
+            assert!(total == 16 && len == 0 && (word >> 56) <= 6, "C18:Ok only for a complete, valid header");
+            assert!(!matches!(dist, Distribution::BinaryBlock(7)) || word == (4u64 << 56 | 7), "C18:Ok commits the distribution from the stream");
+        }
+    }
+
+    #[kani::proof]
+    #[kani::unwind(18)]
+    #[kani::stub(alloc::fmt::format, fmt_stub)]
+    fn c18_blind_rotation_key_read_header() {
+        let hdr: [u8; 16] = kani::any();
+        let total: usize = kani::any();
+        kani::assume(total <= 16);
+        let mut key: BlindRotationKey<Vec<u8>, CGGI> = BlindRotationKey { keys: Vec::new(), dist: Distribution::BinaryBlock(7), _phantom: PhantomData };
+        let mut cur = Cursor::new(&hdr[..total]);
+        let r = key.read_from(&mut cur);
+        check(r, &key.dist, &hdr, total);
+    }
+
+    #[kani::proof]
+    #[kani::unwind(18)]
+    #[kani::stub(alloc::fmt::format, fmt_stub)]
+    fn c18_blind_rotation_key_compressed_read_header() {
+        let hdr: [u8; 16] = kani::any();
+        let total: usize = kani::any();
+        kani::assume(total <= 16);
+        let mut key: BlindRotationKeyCompressed<Vec<u8>, CGGI> = BlindRotationKeyCompressed { keys: Vec::new(), dist: Distribution::BinaryBlock(7), _phantom: PhantomData };
+        let mut cur = Cursor::new(&hdr[..total]);
+        let r = key.read_from(&mut cur);
+        check(r, &key.dist, &hdr, total);
+    }
+}
